@@ -2003,6 +2003,11 @@ impl Property for C12 {
                         }
                     }
                 }
+                if !sc.reentrant_sort {
+                    if let Some((_, n)) = crate::props::waits_after_cancel(&rec) {
+                        v.violate("waits-after-cancel", format!("should_cancel_with_value answered Some at poll {n}, but solve left its future pending afterwards and waited for requests in flight"));
+                    }
+                }
                 for (i, e) in rec.log.iter().enumerate().skip(idx + 1) {
                     if let Ev::Start { kind, arg, in_sort: false, .. } = e {
                         if matches!(kind, Kind::Cand | Kind::Deps) {
@@ -2206,6 +2211,12 @@ impl Property for C13 {
                 if let Outcome::Cancelled(_) = o {
                     v.violate("reuse-spurious-cancel", format!("solve #{i} returned Cancelled without a cancellation fault"));
                 }
+            }
+        }
+        // a cancelled call returns at the poll that told it so; it does not wait for what is in flight
+        if !sc.reentrant_sort {
+            if let Some((i, n)) = crate::props::waits_after_cancel(&rec) {
+                v.violate("cancelled-call-waits", format!("solve #{i}: should_cancel_with_value answered Some at poll {n}, but the call left its future pending afterwards and waited for requests in flight (it does not return if they never answer)"));
             }
         }
         // metadata obtained earlier is not requested again
